@@ -28,6 +28,9 @@ from common import InfraError, rat
 
 LEAN_TARGETS = ["PulserModel.Measure", "Proofs.Measure", "Properties.C20", "Properties.C11", "pm_meas"]
 
+LEAN_SOURCES = {"PulserModel/Measure.lean", "Proofs/Measure.lean", "Properties/C11.lean", "Properties/C20.lean",
+                "Driver/MeasMain.lean", "Driver/Wire.lean"}
+
 TRUSTED_BASE = [
     "Lean 4 kernel; axioms propext, Classical.choice, Quot.sound only (audited every run)",
     "the statements in lean/Properties/C11.lean, C20.lean say what the property says",
@@ -188,7 +191,9 @@ class Campaign:
         if not ok:
             raise InfraError("lake build failed:\n" + out[-3000:])
         thms = common.property_theorems(self.prop)
-        bad = common.lean_forbidden_tokens()
+        # only the sources this property depends on (another contributor's work in progress must not
+        # turn this check into an infrastructure error; `sorryAx` would show up in the axiom audit anyway)
+        bad = [h for h in common.lean_forbidden_tokens() if h.split(":")[0] in LEAN_SOURCES]
         if bad:
             raise InfraError("forbidden tokens in Lean sources: " + "; ".join(bad[:5]))
         axioms = common.audit_axioms(f"Properties.{self.prop}", thms) if thms else {}
@@ -205,8 +210,16 @@ class Campaign:
             out = self.runner(self.drv, case)
         except InfraError:
             raise
-        except Exception as e:  # noqa: BLE001  an adapter bug is infrastructure, not a verdict
-            raise InfraError(f"runner crashed on case {json.dumps(case)[:400]}:\n{traceback.format_exc()}") from e
+        except Exception as e:  # noqa: BLE001
+            # an exception raised *inside the code under test* on a valid input is a verdict (the
+            # property fails there); an exception of the adapter itself is infrastructure
+            frames = traceback.extract_tb(e.__traceback__)
+            in_repo = [f for f in frames if str(Path(f.filename).resolve()).startswith(str(common.REPO.resolve()))]
+            if not in_repo:
+                raise InfraError(f"runner crashed on case {json.dumps(case)[:400]}:\n{traceback.format_exc()}") from e
+            out = Outcome(branch="raised", evaluations=1)
+            where = f"{Path(in_repo[-1].filename).name}:{in_repo[-1].name}"
+            out.fail("raises", f"{type(e).__name__} in {where}: {str(e)[:200]}", exc=type(e).__name__, where=where)
         self.cases += 1
         self.evaluations += out.evaluations
         self.kinds[case["kind"]] += 1
@@ -324,6 +337,16 @@ def _abbrev(case: dict, limit: int = 700) -> dict:
 
 def replay_file(prop: str, path: str, runner) -> int:
     item = json.loads(Path(path).read_text())
+    if isinstance(item, list):          # a corpus file: replay every case in it
+        worst = 0
+        for i, case in enumerate(item):
+            tmp = Path(path).with_suffix(f".{i}.tmp.json")
+            tmp.write_text(json.dumps(case))
+            try:
+                worst = max(worst, replay_file(prop, str(tmp), runner))
+            finally:
+                tmp.unlink(missing_ok=True)
+        return worst
     case = item.get("case", item)
     drv = MeasDriver()
     try:
